@@ -574,12 +574,13 @@ class VQESolver:
         self.ansatz.update_var_params(var_params)
 
         # Initialize the RDM arrays
-        n_mol_orbitals = max(self.molecule.n_active_mos)
-        rdm1_np_a = np.zeros((n_mol_orbitals,) * 2)
-        rdm1_np_b = np.zeros((n_mol_orbitals,) * 2)
-        rdm2_np_a = np.zeros((n_mol_orbitals,) * 4)
-        rdm2_np_b = np.zeros((n_mol_orbitals,) * 4)
-        rdm2_np_ba = np.zeros((n_mol_orbitals,) * 4)
+        # The number of active orbitals may differ between alpha and beta (per-spin frozen orbitals).
+        n_mos_a, n_mos_b = self.molecule.n_active_mos
+        rdm1_np_a = np.zeros((n_mos_a,) * 2)
+        rdm1_np_b = np.zeros((n_mos_b,) * 2)
+        rdm2_np_a = np.zeros((n_mos_a,) * 4)
+        rdm2_np_b = np.zeros((n_mos_b,) * 4)
+        rdm2_np_ba = np.zeros((n_mos_a, n_mos_a, n_mos_b, n_mos_b))
 
         # If resampling is requested, check that a previous savefrequencies run has been called
         if resample:
